@@ -6,19 +6,35 @@
 (*          the pairs in the order they were passed to Add; the mates of    *)
 (*          pair i have the feature ids 2i-1 (A) and 2i (B)                 *)
 (*   calls  the Piles calls made afterwards, each                           *)
-(*          [nilf, pass (indexes of the pairs the filter accepts), panic,   *)
+(*          [nilf, kind, L, pass, panic, unplaced, seen,                    *)
 (*           piles <<[loc, from, to, im (feature ids)]>>,                   *)
 (*           feats <<<<id, index of the pile Location() points at, id of    *)
 (*                    Mate()>>>> for the features of accepted pairs]        *)
+(*          kind = "nil" (no filter), "set" (the filter accepts the pairs   *)
+(*          whose indexes are in pass) or one of SpanKinds (the filter      *)
+(*          reads Location().Len() of the pair's A and B feature and keeps  *)
+(*          the pair by KeepSpan(kind, L, ., .); pass is empty: the pairs   *)
+(*          it lets through are computed HERE from the components).         *)
+(*          Every filter recorded, when it was invoked, where the pair's    *)
+(*          features were located: unplaced = number of invocations that    *)
+(*          saw a feature whose Location() was not a *pals.Pile; seen =     *)
+(*          <<<<pair, pile of A, pile of B>>>> (distinct triples), a pile   *)
+(*          being its index in the piles this call returned, 0 = a pile     *)
+(*          that was not returned, -1 = not a pile.                         *)
 (* Every event is judged by recomputing, with the operators of Piler.tla,   *)
 (* which Adds had to be accepted and the connected components of the        *)
 (* accepted features.  Verdicts (fails): duplicate rule, piles disjoint and *)
 (* not abutting, pile interval = hull of a component, members = that        *)
 (* component (restricted by the filter), every component reported once,     *)
-(* Location() of every feature = its pile, Mate() = the other mate.         *)
+(* Location() of every feature = its pile, Mate() = the other mate; the     *)
+(* filter is only consulted about pairs both of whose features are placed   *)
+(* in the piles reported for their components (the two passes of            *)
+(* PilerPiles.tla); under a pile-reading filter the members reported are    *)
+(* exactly those the filter keeps according to the components.              *)
 (* Drift (no verdict): the operational model (Merge) run on the same Adds   *)
-(* disagrees with the report; a filtered call lists a feature the filter    *)
-(* rejects (inside its own pile).                                           *)
+(* disagrees with the first unfiltered report; a call with a "set" filter   *)
+(* lists a feature the filter rejects (inside its own pile); the filter was *)
+(* consulted about a pair that was not accepted by Add.                     *)
 (***************************************************************************)
 EXTENDS Piler
 
@@ -51,12 +67,22 @@ AddReasons(adds) ==
     IF \E i \in 1..Len(adds) : adds[i].err = "" /\ ~Fresh(adds, i)
       THEN "Add accepted a pair that was already added (same or swapped orientation)" ELSE "">>
 
+\* the pairs the filter of call c lets through.  "set": as logged; pile-reading filters: by the
+\* components (exp), the span of the pile a feature lies in being the span of its component's hull
+SpanOfId(exp, id) == LET x == CHOOSE y \in exp : id \in Ids(y.members) IN x.to - x.from
+PassSet(c, F, exp) ==
+  IF c.kind \in SpanKinds
+    THEN {k \in {PairOf(f.id) : f \in F} : KeepSpan(c.kind, c.L, SpanOfId(exp, 2 * k - 1), SpanOfId(exp, 2 * k))}
+    ELSE Range(c.pass)
+
 \* exp: the expected piles [loc, from, to, members] of the accepted features F
 CallReasons(c, F, exp) ==
   LET P == c.piles
-      pass == Range(c.pass)
+      pass == PassSet(c, F, exp)
       Want(x) == {m.id : m \in {m \in x.members : PairOf(m.id) \in pass}}
       Match(i) == {x \in exp : SameSpan(P[i], x)}
+      \* the pile with index at (as the filter saw it) is the reported pile of the component of feature id
+      OwnPile(at, id) == at \in 1..Len(P) /\ \E x \in exp : id \in Ids(x.members) /\ SameSpan(P[at], x)
   IN
   IF c.panic # "" THEN <<"Piles panicked">>
   ELSE
@@ -69,6 +95,16 @@ CallReasons(c, F, exp) ==
     IF \E i \in 1..Len(P) : \E x \in Match(i) :
          ~(Want(x) \subseteq Range(P[i].im) /\ Range(P[i].im) \subseteq Ids(x.members))
       THEN "a reported pile's members are not the features linked by chains of overlapping or abutting features" ELSE "",
+    IF c.kind \in SpanKinds /\ \E i \in 1..Len(P) : \E x \in Match(i) : Range(P[i].im) # Want(x)
+      THEN "under a filter that reads the piles of a pair's features, a reported pile's members are not the members of its component the filter keeps" ELSE "",
+    IF c.unplaced # 0
+      THEN "the filter was consulted about a pair whose features were not yet placed in their piles" ELSE "",
+    IF \E k \in 1..Len(c.seen) :
+         LET s == c.seen[k] IN
+         /\ \E f \in F : PairOf(f.id) = s[1]
+         /\ s[2] >= 0 /\ s[3] >= 0
+         /\ ~(OwnPile(s[2], 2 * s[1] - 1) /\ OwnPile(s[3], 2 * s[1]))
+      THEN "while the filter was consulted about a pair, Location() of one of its features was not the pile reported for the feature's component" ELSE "",
     IF \E i \in 1..Len(P) : Cardinality(Range(P[i].im)) # Len(P[i].im)
       THEN "a feature is listed twice in one pile" ELSE "",
     IF \E x \in exp : Cardinality({i \in 1..Len(P) : SameSpan(P[i], x)}) # 1
@@ -83,10 +119,11 @@ CallReasons(c, F, exp) ==
     IF \E f \in F : Cardinality({k \in 1..Len(c.feats) : c.feats[k][1] = f.id}) # 1
       THEN "an added feature has no (or more than one) state entry" ELSE "">>
 
-CallDrift(c, exp) ==
-  c.panic = "" /\ \E i \in 1..Len(c.piles) : \E x \in exp :
-     /\ SameSpan(c.piles[i], x)
-     /\ \E id \in Range(c.piles[i].im) : id \in Ids(x.members) /\ PairOf(id) \notin Range(c.pass)
+CallDrift(c, F, exp) ==
+  \/ c.panic = "" /\ c.kind \notin SpanKinds /\ \E i \in 1..Len(c.piles) : \E x \in exp :
+        /\ SameSpan(c.piles[i], x)
+        /\ \E id \in Range(c.piles[i].im) : id \in Ids(x.members) /\ PairOf(id) \notin Range(c.pass)
+  \/ \E k \in 1..Len(c.seen) : ~\E f \in F : PairOf(f.id) = c.seen[k][1]
 
 NonEmpty(t) == SelectSeq(t, LAMBDA r : r # "")
 
@@ -104,13 +141,14 @@ Reasons(e) ==
 \* drift: operational model vs. first unfiltered report; filters ignored inside a pile
 ModelDrift(e) ==
   LET m == Fold(e.adds, 1, Empty, <<>>)
-      c == e.calls[1]
+      nils == {k \in 1..Len(e.calls) : e.calls[k].nilf}
+      c == e.calls[IF nils = {} THEN 1 ELSE SetMin(nils)]       \* the first unfiltered call
       F == AcceptedFeatures(e.adds)
       exp == {PileOf(C) : C \in ComponentsFast(F)}
   IN \/ m.oks # [i \in 1..Len(e.adds) |-> e.adds[i].err = ""]
-     \/ c.panic = "" /\ {[loc |-> p.loc, from |-> p.from, to |-> p.to, ids |-> Ids(p.members)] : p \in m.st.piles}
+     \/ nils # {} /\ c.panic = "" /\ {[loc |-> p.loc, from |-> p.from, to |-> p.to, ids |-> Ids(p.members)] : p \in m.st.piles}
                         # {[loc |-> p.loc, from |-> p.from, to |-> p.to, ids |-> Range(p.im)] : p \in Range(c.piles)}
-     \/ \E k \in 1..Len(e.calls) : CallDrift(e.calls[k], exp)
+     \/ \E k \in 1..Len(e.calls) : CallDrift(e.calls[k], F, exp)
 
 TInit == Init /\ l = 1 /\ fails = <<>> /\ drift = <<>>
 
